@@ -11,7 +11,7 @@ EXPLANATION = ("static analysis (MIR abstract interpretation): the `now >= genes
                "(exact operator classes per origin, no constants, no saturating or wrapping arithmetic); DAY_IN_SECONDS constant")
 ASSUMPTIONS = ["monotonicity and the half-open interval follow from id = floor((now-genesis)/duration) on paper; they are not decided numerically",
                "Uint64 checked_* return Err on overflow (cosmwasm-std)"]
-TECHNIQUE = "static analysis: guard cut-sets, operator-class provenance of the epoch formula, constants"
+TECHNIQUE = "static analysis: guard cut-sets, operator-class provenance of the epoch formula, constants (narrowing casts = wrap), writers by entry point"
 LEVEL_TEXT = ("Structural obligations: formula shape (which inputs, which operator classes, rounding direction), must-pass-through guards for "
               "pre-genesis queries and for every config write, constant table; exhaustive over CFG paths.")
 LEVEL_NOTE = "Not decided: the arithmetic facts themselves (monotone, +1 per duration) beyond the formula's shape."
